@@ -315,8 +315,8 @@ Proof.
     destruct rn as [m| | | |]; try exact G0.
     set (nk := render d ++ 0 :: r).
     destruct (cache_get (node_cache st0) nk); [exact G0|].
-    pose proof (try_cands_ngood (cands_node fs d r) st0 (proj1 G0)) as G.
-    destruct (try_cands fs rq st0 (cands_node fs d r)) as [st1 x]. cbn [fst] in *.
+    pose proof (try_cands_ngood (cands_node fs (parse (render d)) r) st0 (proj1 G0)) as G.
+    destruct (try_cands fs rq st0 (cands_node fs (parse (render d)) r)) as [st1 x]. cbn [fst] in *.
     assert (G01 : ngood nr st st1) by (eapply ngood_trans; eassumption).
     destruct x as [m| | | |]; exact G01.
 Qed.
